@@ -13,7 +13,7 @@ package authboss
 //@        ite(len(r.URL.RawQuery) != 0, "?" ++ r.URL.RawQuery, "")
 //@
 //@ func MountedMiddleware2#1#1
-//@   property C08 C17
+//@   property C08 C13 C17
 //@   ensures[C17] no_secret_leak: secrets_clean
 //@   requires 0 <= reqs && reqs <= 3
 //@   -- the wrapped handler runs only with the requirements met and a loaded user in the context
@@ -232,4 +232,12 @@ package authboss
 //@   ensures registers_after: (emits MapWrite(?m, ?k, ?v) :: m == c.after && k == e && len(v) == len(mapget(c.after, e)) + 1 &&
 //@       elem(v, len(v) - 1) == f && (forall i int :: (0 <= i && i < len(v) - 1) ==> elem(v, i) == elem(mapget(c.after, e), i))) &&
 //@       (each MapWrite(?m2, _, _) => m2 == c.after)
+//@
+//@ -- Template data: Merge copies other into h and returns h (callers only rely on the identity
+//@ -- of the result; what was copied is not tracked).
+//@ func (HTMLData).Merge
+//@   property C05 C13 C16 C17 C19
+//@   option summary callers use this contract, not the body
+//@   invariant loop#1 any: true
+//@   ensures same_map: result == h
 
